@@ -126,6 +126,7 @@ func cmdCheck(args []string) int {
 		timeS                         float64
 		expectSat                     bool
 		query                         string
+		at                            int
 	}
 	var all []oblRes
 	var fevs []funcEvidence
@@ -185,7 +186,7 @@ func cmdCheck(args []string) int {
 					if !ok {
 						q = r.VC.queryText(o, false)
 					}
-					all = append(all, oblRes{o.Name, baseName(o.Name), r.Key, o.Kind, o.Src, o.Pos, ok, o.Status, o.Solver, o.Output, o.Model, o.TimeS, o.ExpectSat, q})
+					all = append(all, oblRes{o.Name, baseName(o.Name), r.Key, o.Kind, o.Src, o.Pos, ok, o.Status, o.Solver, o.Output, o.Model, o.TimeS, o.ExpectSat, q, o.At})
 					if len(samples) < 6 && (o.Kind == "post" || o.Kind == "inv") && ok {
 						samples = append(samples, map[string]string{"obligation": o.Name, "clause": o.Src, "status": o.Status, "backend": o.Solver,
 							"smt_goal_head": trunc("(assert "+o.Guard+") (assert (not "+o.Goal+"))", 400)})
@@ -227,8 +228,19 @@ func cmdCheck(args []string) int {
 	if *claimMode {
 		good := map[string]bool{}
 		bad := map[string]bool{}
+		// an assertion (lemma hint) that is not discharged taints everything proved after it in the
+		// same function, because it is assumed from that point on
+		taintAt := map[string]int{}
 		for _, o := range all {
-			if o.ok {
+			if !o.ok && o.kind == "assert" {
+				if t, ok := taintAt[o.fn]; !ok || o.at < t {
+					taintAt[o.fn] = o.at
+				}
+			}
+		}
+		for _, o := range all {
+			t, tainted := taintAt[o.fn]
+			if o.ok && !(tainted && o.at > t) {
 				good[o.base] = true
 			} else {
 				bad[o.base] = true
